@@ -30,7 +30,7 @@ type Prop struct{}
 func (Prop) ID() string    { return "C15" }
 func (Prop) Level() string { return "exploration" }
 func (Prop) Rule() string {
-	return "schedules: 15-40 PRNG-chosen steps over two real nodes of one space (create object, create bound child of a live or tombstoned parent, edit, local delete plain/snapshot, deliver/drop any in-flight head update or queued request in any order, PutSyncTree / BuildSyncTreeOrGetRemote on tombstoned, unknown or arbitrary ids with and without local storage and peer, fetch with a settings update landing mid-fetch, settings full sync, deleter run, restart with or without an early deleter run, tree close), each followed by a full / partial / empty drain of the head-updater queue and an observation of both nodes; then a finale (deliver everything, deleters, restarts, cross-node comparison). Non-trivial = before the finale the schedule recorded >= 1 deletion, made >= 1 attempt on a tombstoned id (put, open/fetch without local storage, incoming head update, late child) and had >= 1 restart or deleter run; distinct = sequence of step kinds."
+	return "schedules: 15-40 PRNG-chosen steps over two real nodes of one space (create object, create bound child of a live or tombstoned parent, edit, local delete plain/snapshot, deliver/drop any in-flight head update or queued request in any order, PutSyncTree / BuildSyncTreeOrGetRemote on tombstoned, unknown or arbitrary ids with and without local storage and peer, fetch with a settings update (and possibly a deleter run) landing between the tombstone check and the arrival of the fetched tree, settings full sync, deleter run, restart with or without an early deleter run, tree close), each followed by a full / partial / empty drain of the head-updater queue and an observation of both nodes; then a finale (deliver everything, deleters, restarts, cross-node comparison). Non-trivial = before the finale the schedule recorded >= 1 deletion, made >= 1 attempt on a tombstoned id (put, open/fetch without local storage, incoming head update, late child) and had >= 1 restart or deleter run; distinct = sequence of step kinds. toctou-script: 4 fixed schedules around that fetch window (deterministic reproducer of F-C15-1 and its benign control)."
 }
 func (Prop) Assumptions() []string {
 	return []string{
@@ -38,7 +38,9 @@ func (Prop) Assumptions() []string {
 		"head-storage notifications reach the DiffManager in FIFO order (headsync's head updater is a FIFO queue); the harness only chooses how far the queue has drained when it looks",
 		"the app-level TreeManager is the harness's (a cache of open sync trees deleting through the real tree / storage), as in the repository's own space tests",
 		"the deleter is run as a step through the verif hook instead of from deletionmanager's background loop",
-		"a queued id whose storage still exists locally may be opened and edited (the deleter needs it); a fetch that started before the tombstone was recorded is not judged",
+		"a queued id whose storage still exists locally may be opened and edited (the deleter needs it); an id with status deleted may not",
+		"a fetch whose tombstone check passed before the deletion was recorded is not judged itself; what it leaves behind is (later open attempts, status order)",
+		"the settings object handles head updates and the deleter runs on goroutines that nothing serialises with a remote fetch, so the harness may run them inside its SyncClient.SendTreeRequest",
 	}
 }
 
@@ -54,7 +56,8 @@ func (Prop) Plan(tier string) []lib.Workload {
 		wl.Batches = 160
 		wl.BatchTimeout = 90 * time.Minute
 	}
-	return []lib.Workload{wl}
+	// the scripted workload is deterministic (4 fixed schedules, see scripted.go)
+	return []lib.Workload{wl, {Name: "toctou-script", Cases: len(scriptedVariants), Batches: 1, MinNontrivial: len(scriptedVariants)}}
 }
 
 // ---------------------------------------------------------------- logging
@@ -126,6 +129,16 @@ func (Prop) RunCase(c *lib.Case) {
 	steps := 15 + c.Rng.Intn(26)
 	var kinds []string
 	broken, brokenKey := "", ""
+	if c.Workload == "toctou-script" {
+		steps = 0
+		var err error
+		kinds, err = w.runScripted(c.Index)
+		if err != nil {
+			broken, brokenKey = "scripted: "+err.Error(), "scripted:"+errClass(err)
+		}
+		kinds = append([]string{scriptedName(c.Index)}, kinds...)
+		c.Count("scripted."+scriptedName(c.Index), 1)
+	}
 	for i := 0; i < steps; i++ {
 		w.step = i + 1
 		kind, err := w.nextStep()
@@ -143,6 +156,10 @@ func (Prop) RunCase(c *lib.Case) {
 		w.epilogue(tag, false)
 	}
 	nontrivial := w.mon.deletions >= 1 && w.mon.tombstonedAttempts >= 1 && w.mon.restartsOrDeleter >= 1
+	if c.Workload == "toctou-script" {
+		// scripted: non-trivial when the window was actually hit
+		nontrivial = w.mon.deletions >= 1 && w.counts["race.settings_update_delivered_mid_fetch"] >= 1
+	}
 	if broken == "" {
 		if err := w.finale(); err != nil {
 			broken = "finale: " + err.Error()
